@@ -192,6 +192,7 @@ struct Ctx
       {
         ++fails;
         std::fprintf(orc, "ORACLE-FAIL %s\n", text.c_str());
+        std::fflush(orc); // keep the verdict if the implementation crashes later on
       }
     return ok;
   }
@@ -1506,7 +1507,9 @@ padr_case(Ctx& c, int t)
   // documentation of set_kernel_in_frequency_space: "The kernel has to be given with index ranges starting from 0."
   c.check(yes == (!irregular && shifted < 0), std::string("dft-filter-frequency-kernel set_kernel_in_frequency_space ") + (yes ? "accepted" : "rejected") + " a " + what);
   std::string ans = "no";
-  if (yes)
+  if (yes && (irregular || shifted >= 0))
+    ans = "yes (not applied)"; // accepted although documented as not acceptable: reported above; applying it may crash
+  else if (yes)
     {
       ans = "yes";
       bool identity = true;
